@@ -97,8 +97,8 @@ func genPrograms(tier string) string {
 			if tier != "thorough" && (i*7+j*3)%8 != 0 {
 				continue // quick tier: a fixed eighth of the pairs
 			}
-			if tier == "thorough" && (i*5+j*3)%16 != 0 {
-				continue // thorough tier: a fixed sixteenth of all pairs
+			if tier == "thorough" && (i*5+j*3)%48 != 0 {
+				continue // thorough tier: a fixed forty-eighth of all pairs
 			}
 			emit(stmts[i], stmts[j])
 		}
@@ -128,7 +128,7 @@ func genGotoPrograms(tier string) string {
 	}
 	count := 200
 	if tier == "thorough" {
-		count = 3000
+		count = 1500
 	}
 	for k := 0; k < count; k++ {
 		n := 3 + rnd(6)
